@@ -191,8 +191,94 @@ def run_modres(case):
     return dict(nontrivial=True, key=[case["file"], "modres"], outcome="modres %s" % ("same" if not out else "DIFF"), violations=out)
 
 
+def replicated_cases(tier):
+    """N copies of a structure, 300 A apart, each under a chain name of its own, in ONE file: translation changes nothing, so every copy carries exactly the
+    interactions of the single structure (14 copies of the tRNA: beyond 1 000 residues and 10 000 donor / acceptor atoms; thorough: 56 copies, beyond
+    4 000 residues and 46 000 such atoms)."""
+    for n in ((14,) if tier == "quick" else (14, 56)):
+        yield dict(file="1ehz-assembly-1.cif", replicate=n)
+        # the assembly under each of the 59 icosahedral rotations (one case each: they spread over the workers)
+        for k in range(1, 60) if n == 14 else (7, 23, 41, 52):
+            yield dict(file="1ehz-assembly-1.cif", replicate=n, rot=k)
+    yield dict(file="1E7K_1_C.cif", replicate=3)
+
+
+def _interactions(structure):
+    from rnapolis.annotator import extract_base_interactions
+
+    bi = extract_base_interactions(structure)
+    k = lambda nt: (nt.chain, nt.number, nt.icode)
+    out = []
+    for x in bi.basePairs:
+        out.append(("bp", k(x.nt1), k(x.nt2), x.lw.value))
+    for x in bi.stackings:
+        out.append(("st", k(x.nt1), k(x.nt2), x.topology.value if x.topology else None))
+    for x in bi.baseRiboseInteractions:
+        out.append(("br", k(x.nt1), k(x.nt2), x.br.value if x.br else None))
+    for x in bi.basePhosphateInteractions:
+        out.append(("bph", k(x.nt1), k(x.nt2), x.bph.value if x.bph else None))
+    return out
+
+
+def run_replicated(case):
+    t = abstract_of(dict(file=case["file"]))
+    chains = sorted({a["chain"] for a in t})
+    if len(chains) != 1:
+        return dict(nontrivial=False, outcome="several-chains", violations=[])
+    n = case["replicate"]
+    big = []
+    for k in range(n):
+        for a in t:
+            b = dict(a)
+            b["chain"] = "K%02d" % k
+            b["x"] = dec_str(Decimal(a["x"]) + Decimal(300 * k))
+            big.append(b)
+    for i, a in enumerate(big):
+        a["serial"] = i + 1
+    out = []
+    r1 = observe(lambda: _interactions(read_table(t, "mmCIF")))
+    sbig = observe(read_table, big, "mmCIF")
+    if sbig[0] == "exc":
+        return dict(nontrivial=True, outcome="exc", violations=[viol("replicated:" + sbig[1], "reading %d copies raised %s" % (n, sbig[2]))])
+    rn = observe(lambda: _interactions(sbig[1])) if not case.get("rot") else ("ok", [])
+    if r1[0] == "exc" or rn[0] == "exc":
+        bad = r1 if r1[0] == "exc" else rn
+        return dict(nontrivial=True, outcome="exc", violations=[viol("replicated:" + bad[1], "annotating %s raised %s" % ("the single structure" if bad is r1 else "%d copies" % n, bad[2]))])
+    single = sorted((kind, a[1:], b[1:], cls) for kind, a, b, cls in r1[1])
+    per = {}
+    for kind, a, b, cls in rn[1]:
+        if a[0] != b[0]:
+            out.append(viol("replicated:interaction-between-copies", "%d copies 300 A apart: an interaction joins two copies: %s %s %s" % (n, kind, a, b)))
+            break
+        per.setdefault(a[0], []).append((kind, a[1:], b[1:], cls))
+    for k in (range(n) if not case.get("rot") else ()):
+        got = sorted(per.get("K%02d" % k, []))
+        if got != single:
+            miss = [x for x in single if x not in got][:2]
+            extra = [x for x in got if x not in single][:2]
+            out.append(viol("replicated:copy-differs", "%s x %d copies 300 A apart: copy %d carries other interactions than the single structure: missing %s, extra %s" % (case["file"], n, k, miss, extra), len(got), len(single)))
+            break
+    # the whole assembly moved by general rotations (in memory): still the single structure's interactions in every copy
+    if not out and refann.global_margin(refann.from_structure3d(read_table(t, "mmCIF"))) >= 1e-6:
+        for ri in ([case["rot"]] if case.get("rot") else ()):
+            rr = observe(lambda: _interactions(_rotate(sbig[1], enum3d.icosahedral_rotations()[ri])))
+            if rr[0] == "exc":
+                out.append(viol("replicated:rotated:" + rr[1], "annotating %d rotated copies raised %s" % (n, rr[2])))
+                break
+            per = {}
+            for kind, a, b, cls in rr[1]:
+                per.setdefault(a[0], []).append((kind, a[1:], b[1:], cls))
+            bad = [k for k in range(n) if sorted(per.get("K%02d" % k, [])) != single]
+            if bad:
+                got = sorted(per.get("K%02d" % bad[0], []))
+                out.append(viol("replicated:rotated-copy-differs", "%s x %d copies, rotated (icosahedral rotation %d): copy %d carries other interactions than the single structure: missing %s, extra %s"
+                                % (case["file"], n, ri, bad[0], [x for x in single if x not in got][:2], [x for x in got if x not in single][:2]), len(got), len(single)))
+                break
+    return dict(nontrivial=bool(single), key=[case["file"], "replicate", n], outcome="replicated %d %s" % (n, "same" if not out else "DIFF"), violations=out)
+
+
 def families(tier):
-    return [("modres-format", lambda: modres_cases(tier), 1), ("transformations", lambda: cases(tier), 32), ("near-threshold", lambda: near_cases(tier), 64), ("exact-alignment", lambda: exact_cases(tier), 32),
+    return [("replicated", lambda: replicated_cases(tier), 1), ("modres-format", lambda: modres_cases(tier), 1), ("transformations", lambda: cases(tier), 32), ("near-threshold", lambda: near_cases(tier), 64), ("exact-alignment", lambda: exact_cases(tier), 32),
             ("altloc-format", lambda: altloc_cases(tier), 8)]
 
 
@@ -526,6 +612,8 @@ def run_altloc(case):
 def run_case(case):
     if case.get("modres"):
         return run_modres(case)
+    if case.get("replicate"):
+        return run_replicated(case)
     if "near" in case:
         return run_near(case)
     if "altloc" in case:
